@@ -162,7 +162,8 @@ Theorem C18_model_queries_connected :
 Proof. exact GraphProofs.model_queries_connected. Qed.
 Print Assumptions C18_model_queries_connected.
 
-(** *** 5. "for every model": graphs built by any history of addEquivalence and variable destruction *)
+(** *** 5. "for every model": graphs built by any history of addEquivalence, removeEquivalence,
+    removeAllEquivalences and variable destruction *)
 
 (** The construction API keeps the weak lists symmetric and inside the model. *)
 Theorem C18_build_symmetric :
@@ -183,6 +184,45 @@ Theorem C18_built_queries_correct :
          exists r, nth_error (model_queries addr n g qs) i = Some (Some r) /\ (r = true <-> a = b \/ connected g a b)).
 Proof. exact GraphProofs.built_queries_correct. Qed.
 Print Assumptions C18_built_queries_correct.
+
+(** *** 6. Histories: edits of the graph (addEquivalence, removeEquivalence, removeAllEquivalences,
+    destruction) interleaved with questions through all four query functions *)
+
+(** Every edit keeps the weak lists well-formed (symmetric, duplicate-free, no variable lists itself, a
+    destroyed variable has no list) and changes the connection graph exactly as [spec_edge] says. *)
+Theorem C18_step_wf : forall g o, wf g ->
+  wf (step g o) /\ (forall x y, edge (step g o) x y <-> spec_edge g o x y).
+Proof. exact GraphProofs.step_wf. Qed.
+Print Assumptions C18_step_wf.
+
+(** For EVERY history of edits and questions over the variables of a model, starting from the model
+    without equivalences: the list of answers is, question by question, the right answer on the graph
+    as it is when the question is asked ([graph_trace]: the edits so far applied) - never an answer
+    about an earlier graph.  [answered (g,k,a,b) r]: r is [Some r0] (no fuel exhaustion) and r0 is
+    "different and connected in g" / "listed in g" / "same or connected in g" according to k. *)
+Theorem C18_history_correct : forall n h, Forall (event_below n) h ->
+  Forall2 answered (graph_trace n empty_graph h) (run_history n empty_graph [] h).
+Proof. exact GraphProofs.history_correct. Qed.
+Print Assumptions C18_history_correct.
+
+(** The graphs of the trace evolve by [spec_edge], stay well-formed and inside the model, and
+    destroyed variables stay destroyed. *)
+Theorem C18_history_step_edges : forall n g o, wf g -> bounded g n -> op_below n o ->
+  (wf (freeze n (step g o)) /\ bounded (freeze n (step g o)) n) /\
+  (forall x y, edge (freeze n (step g o)) x y <-> spec_edge g o x y) /\
+  (forall x, alive (freeze n (step g o)) x = true -> alive g x = true).
+Proof. exact GraphProofs.history_step_edges. Qed.
+Print Assumptions C18_history_step_edges.
+
+(** Non-vacuity of the history theorem, on the scenario a per-variable memo gets wrong: chain 0-1-2-3,
+    ask (0,3); remove the remote link 1-2, ask again; put it back; clear variable 2. *)
+Example C18_history_nonvacuous :
+  run_history 4 empty_graph [] ex_history =
+    [Some true; Some true; Some false; Some false; Some false; Some true; Some true; Some true;
+     Some false; Some true; Some false] /\
+  Forall (event_below 4) ex_history.
+Proof. exact GraphProofs.history_nonvacuous. Qed.
+Print Assumptions C18_history_nonvacuous.
 
 (** Non-vacuity: chain 0-1-2, 3 isolated, 4 linked then destroyed; too little fuel is [None], not [false]. *)
 Example C18_nonvacuous :
